@@ -1,4 +1,5 @@
 import OnetVerif.Model.C11
+import OnetVerif.Shapes
 /-! Property C11 — finished instances stay finished; trees outlive them as long as needed.
 All statements hold for arbitrary schedules (`List Act`). -/
 namespace C11
@@ -458,5 +459,67 @@ private def demo : List Act :=
 example : (run {} demo).doneToks = [9, 1, 2] ∧ (run {} demo).constructed = [9, 1, 2] ∧
     (run {} demo).handed = [(1, 11), (2, 12)] ∧ (run {} demo).present = false ∧
     (run {} (demo.take 16)).present = true ∧ (run {} (demo.take 16)).armed = true := by decide
+
+/-! ### the code regions the model stands for
+Regenerated from /repo's source on every run (`harness/cmd/astfacts` → `OnetVerif/Shapes.lean`): the
+calls that matter for synchronisation and data flow, the lock regions and (for decision logic) the
+conditions, in source order.  A re-ordering, a dropped call or a changed condition breaks these
+obligations even when no sampled input or schedule shows a difference; the check then searches for
+a failing input. -/
+theorem c11_shape_Overlay_nodeDone :
+    Shapes.overlay_Overlay_nodeDone =
+   ["instancesLock.Lock", "o.nodeDelete", "instancesLock.Unlock"] := rfl
+
+theorem c11_shape_Overlay_nodeDelete :
+    Shapes.overlay_Overlay_nodeDelete =
+   ["token.ID", "tni.closeDispatch", "o.cleanTreeStorage"] := rfl
+
+theorem c11_shape_Overlay_cleanTreeStorage :
+    Shapes.overlay_Overlay_cleanTreeStorage =
+   ["if:inst.token.TreeID.Equal(token.TreeID)", "if:notUsed", "treeStorage.Remove"] := rfl
+
+theorem c11_shape_Overlay_newTreeNodeInstanceFromToken :
+    Shapes.overlay_Overlay_newTreeNodeInstanceFromToken =
+   ["newTreeNodeInstance", "instancesLock.Lock", "defer:instancesLock.Unlock", "if:o.closed",
+     "tni.closeDispatch", "return:tni", "tok.ID", "return:tni"] := rfl
+
+theorem c11_shape_Overlay_NewTreeNodeInstanceFromService :
+    Shapes.overlay_Overlay_NewTreeNodeInstanceFromService =
+   ["uuid.NewRandom", "uuid.Must", "RoundID", "o.newTreeNodeInstanceFromToken", "o.RegisterTree"] := rfl
+
+theorem c11_shape_Overlay_Close :
+    Shapes.overlay_Overlay_Close =
+   ["instancesLock.Lock", "defer:instancesLock.Unlock", "tni.Token", "o.nodeDelete",
+     "treeStorage.Close"] := rfl
+
+theorem c11_shape_treeStorage_Register :
+    Shapes.treestorage_treeStorage_Register =
+   ["ts.Lock", "if:!ok", "ts.Unlock"] := rfl
+
+theorem c11_shape_treeStorage_Unregister :
+    Shapes.treestorage_treeStorage_Unregister =
+   ["ts.Lock", "defer:ts.Unlock", "if:(tree==nil)"] := rfl
+
+theorem c11_shape_treeStorage_getAndRefresh :
+    Shapes.treestorage_treeStorage_getAndRefresh =
+   ["ts.Lock", "defer:ts.Unlock", "ts.cancelDeletion"] := rfl
+
+theorem c11_shape_treeStorage_Set :
+    Shapes.treestorage_treeStorage_Set =
+   ["ts.Lock", "defer:ts.Unlock", "ts.cancelDeletion"] := rfl
+
+theorem c11_shape_treeStorage_Remove :
+    Shapes.treestorage_treeStorage_Remove =
+   ["ts.Lock", "defer:ts.Unlock", "wg.Add", "go{", "defer:wg.Done", "time.NewTimer", "recv:C",
+     "ts.Lock", "ts.Unlock", "recv:c", "timer.Stop", "}"] := rfl
+
+theorem c11_shape_treeStorage_cancelDeletion :
+    Shapes.treestorage_treeStorage_cancelDeletion =
+   ["close:c"] := rfl
+
+theorem c11_shape_treeStorage_Close :
+    Shapes.treestorage_treeStorage_Close =
+   ["ts.Lock", "close:c", "ts.Unlock", "wg.Wait"] := rfl
+
 
 end C11
